@@ -51,6 +51,8 @@ RACE = {"C02", "C03", "C04", "C05", "C06", "C07", "C09", "C10", "C11", "C12", "C
 RACE_NARROW = {"C05": "lambda/rapid/shutdown.go, lambda/rapid/exit.go and lambda/core/flow.go",
                "C07": "lambda/rapid/shutdown.go, lambda/core/states.go, lambda/rapi/handler/invocationresponse.go and lambda/rapi/rendering/render_error.go"}
 
+UY = {"C07": ("20 000", "200 000"), "C08": ("8 000", "100 000")}
+
 NA = [
  ("C16", "pure function of configuration (environment layering); no schedule, clock, fault or interleaving for a simulator to decide (DESIGN.md 4)"),
  ("C20", "pure functions of one request's header strings and body (sanitisation/cropping); no concurrency, time or fault participates (DESIGN.md 4)"),
@@ -65,6 +67,9 @@ def main():
             text += " After the main pass a race pass (1 500 runs quick, 40 000 thorough) runs the same generators under the race detector; two unsynchronised accesses of emulator code that both lie in the files this property is anchored in are a violation (rule data-race)."
             if pid in RACE_NARROW:
                 text += " For this property the race pass (3 000 runs quick) is narrowed to " + RACE_NARROW[pid] + " (DESIGN 11.12)."
+        if pid in UY:
+            tech += "; followed by an unlock-yield pass: the same seeded scenarios with one more kind of scheduling point, the release of a lock, and goroutines held at the explicit unlock points of the tree (DESIGN 11.17)"
+            text += " After the main pass an unlock-yield pass (%s runs quick, %s thorough) runs the same generator with a scheduling point after every release of a lock and holds a goroutine, across the emulator's own timers, at a place where a function goes on after an explicit Unlock." % UY[pid]
         checks.append({
             "property_id": pid,
             "quick_cmd": f"/verif/bin/verif check {pid} --tier quick",
@@ -81,7 +86,7 @@ def main():
         "setup_cmd": "cd /verif/tool && GOFLAGS=-mod=mod GOPROXY=off GOSUMDB=off GOTOOLCHAIN=local go1.26.8 build -o /verif/bin/verif ./cmd/verif && /verif/bin/verif warm",
         "hooks": {
             "guard": "verifsim",
-            "enable": "no source hooks: every check rebuilds /repo's working tree with `go1.26.8 test -c -modfile=<go.mod copy, go 1.26.8> -overlay=<json>`; the overlay injects AST-transformed copies (import sync -> verifsim/simsync, import net -> verifsim/simnet in lambda/rapi/server.go, a body for metering.Monotime, os/exec+syscall -> verifsim/simkernel in lambda/supervisor/local_supervisor.go), the harness packages under verifsim/ and a test entry file in cmd/aws-lambda-rie (DESIGN.md 2.3); /repo is never written",
+            "enable": "no source hooks: every check rebuilds /repo's working tree with `go1.26.8 test -c -modfile=<go.mod copy, go 1.26.8> -overlay=<json>`; the overlay injects AST-transformed copies (import sync -> verifsim/simsync, a simsync.Yield() after every go statement and a simsync.UnlockPoint() after every explicit Unlock statement, import net -> verifsim/simnet in lambda/rapi/server.go, a body for metering.Monotime, os/exec+syscall -> verifsim/simkernel in lambda/supervisor/local_supervisor.go), the harness packages under verifsim/ and a test entry file in cmd/aws-lambda-rie (DESIGN.md 2.3); /repo is never written",
             "baseline_off_cmd": "cd /repo && go test -vet=off -count=1 ./...",
             "source_commits": [],
             "add_only": True,
